@@ -312,7 +312,7 @@ func ruleTablesOnlyThroughHelpers(c *Ctx, rule string) {
 			for root.Parent() != nil {
 				root = root.Parent()
 			}
-			c.ob(rule, fn, "entry of "+f+" changed only by the paired move helpers", in, allowed[f][root.Name()], "single entries move between the tables only in syncCacheAfterCreate / syncCacheAfterDel (each inserts into one table and deletes from the other)")
+			c.ob(rule, fn, "entry of "+f+" changed only by the paired move helpers", in, allowed[f][bareName(root)], "single entries move between the tables only in syncCacheAfterCreate / syncCacheAfterDel (each inserts into one table and deletes from the other)")
 		})
 	}
 	// each helper does both halves
@@ -354,7 +354,7 @@ func ruleWhoMayUnbind(c *Ctx, rule string) {
 			for root.Parent() != nil {
 				root = root.Parent()
 			}
-			c.ob(rule, fn, shortCallee(call)+" called only from the unassign-first paths", call, allowedCallers[root.Name()], "callers are unbind / Release / the resync closure (each unassigns from the provider before deciding to free or reserve)")
+			c.ob(rule, fn, shortCallee(call)+" called only from the unassign-first paths", call, allowedCallers[bareName(root)], "callers are unbind / Release / the resync closure (each unassigns from the provider before deciding to free or reserve)")
 		}
 	}
 	if n < 5 {
